@@ -60,6 +60,13 @@ type Contract struct {
 	File     string
 	Line     int
 	Waive    []string // obligation name patterns that are known findings handled elsewhere
+	Calls    []CallClause
+}
+
+type CallClause struct {
+	Var  string
+	Key  string
+	Args []Expr
 }
 
 type SpecMacro struct {
@@ -83,11 +90,12 @@ type ContractSet struct {
 	Files     []string
 }
 
-var clauseKW = regexp.MustCompile(`^(func|interface|extern|lemma|spec|ghost|globalfact|requires|ensures|assigns|modifies|loop|tags|overflow|abstract|fnparam|pure|trusted|returns|waive)\b`)
+var clauseKW = regexp.MustCompile(`^(func|interface|extern|lemma|spec|ghost|globalfact|requires|ensures|assigns|modifies|loop|tags|overflow|abstract|fnparam|pure|trusted|returns|waive|call)\b`)
 var headRe = regexp.MustCompile(`^(func|interface|extern)\s+(\([^)]*\)\.)?([A-Za-z0-9_.$/\-]+)\s*\(([^)]*)\)\s*(.*)$`)
 var lemmaRe = regexp.MustCompile(`^lemma(\[[^\]]*\])?\s+([A-Za-z0-9_.$]+)\s*\(([^)]*)\)\s*$`)
 var specRe = regexp.MustCompile(`^spec\s+([A-Za-z0-9_$]+)\s*\(([^)]*)\)\s*=\s*(.*)$`)
 var ensRe = regexp.MustCompile(`^(requires|ensures)(\[[^\]]*\])?\s+(?:([A-Za-z_][A-Za-z0-9_.]*):\s+)?(.*)$`)
+var callRe = regexp.MustCompile(`^call\s+([A-Za-z_][A-Za-z0-9_]*)\s*=\s*(\(?[^()]*\)?\.?[A-Za-z0-9_.$/]+)\s*\((.*)\)\s*$`)
 var loopRe = regexp.MustCompile(`^loop\s+(\d+)\s+(invariant|decreases)(\[[^\]]*\])?\s+(?:([A-Za-z_][A-Za-z0-9_.]*):\s+)?(.*)$`)
 
 func splitList(s string) []string {
@@ -347,6 +355,17 @@ func (cs *ContractSet) LoadFile(path, pkg string) error {
 				cur.Trusted = true
 			case strings.HasPrefix(t, "returns"):
 				cur.Results = splitList(strings.Trim(strings.TrimSpace(t[7:]), "()"))
+			case strings.HasPrefix(t, "call "):
+				// call r = (rel.String).Less(a, b)   -- lemma only: use the *contract* of a function
+				m := callRe.FindStringSubmatch(t)
+				if m == nil {
+					return errf("bad call clause: %s", t)
+				}
+				ex, err := ParseExpr("f(" + m[3] + ")")
+				if err != nil {
+					return errf("%v in call arguments: %s", err, m[3])
+				}
+				cur.Calls = append(cur.Calls, CallClause{Var: m[1], Key: strings.TrimSpace(m[2]), Args: ex.(ECall).Args})
 			default:
 				return errf("unknown clause: %s", t)
 			}
